@@ -366,7 +366,7 @@ func vtFeedCase(class int, rc vwNodeCfg, sender vwNodeCfg, stream []byte, f vtFe
 
 
 // one round: an initiator and a host under one random configuration
-func vtRound(r *vfRng, st *vfStats, allCuts bool) []vfCase {
+func vtRound(r *vfRng, st *vfStats, allCuts bool, round int) []vfCase {
 	var out []vfCase
 	label := vwLabels[r.pick([]int{0, 0, 2, 5})]
 	var keys []int
@@ -378,6 +378,14 @@ func vtRound(r *vfRng, st *vfStats, allCuts bool) []vfCase {
 	}
 	pv := uint8(r.pick([]int{1, 2, 5}))
 	base := vwNodeCfg{label: label, keys: keys, vout: true, vin: true, pv: pv, compress: r.chance(50)}
+	// the first rounds of every run are fixed corners of the configuration space
+	switch round {
+	case 0: // short label, encryption, no compression: small messages travel in a bare encryption frame
+		base.label, base.keys, base.compress = "blue", []int{1}, false
+	case 1: // no label, two keys, compression
+		base.label, base.keys, base.compress = "", []int{2, 4}, true
+	}
+	label, keys = base.label, base.keys
 	ic, hc := base, base
 	ic.name, hc.name = "ini", "hst"
 	ustate := [][]byte{nil, []byte("U"), bytes.Repeat([]byte{'s'}, 5000)}[r.n(3)]
@@ -819,7 +827,7 @@ func TestVfStream(t *testing.T) {
 	all := vfEnvInt("VF_ALLCUTS", 0) == 1
 	for i := 0; i < n; i++ {
 		synctest.Test(t, func(t *testing.T) {
-			cases = append(cases, vtRound(r, st, all)...)
+			cases = append(cases, vtRound(r, st, all, i)...)
 			for k := 0; k < 6; k++ {
 				cases = append(cases, vtJoin(r, st))
 			}
